@@ -402,7 +402,18 @@ func scanModel(dest string, t *term.Term, wrap bool) scanExp {
 		if s, ok := textOfList(t); ok {
 			return scanExp{mode: mEither, want: "string " + strconv.QuoteToASCII(s), match: matchStr(s)}
 		}
-		return scanExp{mode: mOpen, want: "an error (or a rendering of the term: not decided by the statement)"}
+		// not a text: an error, or (not decided by the statement) a rendering of the term - but a rendering denotes the
+		// term: a text that reads as a different term (elements glued together, dropped or re-interpreted) is an altered value
+		return scanExp{mode: mEither, want: "an error (or a text that reads back as the term)", match: func(g *proto.GoVal) bool {
+			if g.K != "string" {
+				return false
+			}
+			back, _, err := term.ParseTerm(string(g.B))
+			if err != nil || back == nil {
+				return true // not readable by the harness parser: not decided
+			}
+			return term.VariantAll([]*term.Term{t}, []*term.Term{back})
+		}}
 	case dest == "TermString":
 		return scanExp{mode: mOpen, want: "the term's text (not decided by the statement)"}
 	case dest == "bool":
